@@ -245,7 +245,10 @@ func ReadResponse(r io.Reader, tcpID *api.TcpID, counterPair *api.CounterPair, c
 		mt.(messageType).decode(d, valueOf(deleteTopicsResponse))
 		reqResPair.Response.Payload = deleteTopicsResponse
 	default:
-		return fmt.Errorf("(Response) Not implemented: %s", apiKey)
+		// The request was of a known API without a layout here: nothing to report, but the
+		// response is consumed to its declared size so that the next one is read from the right offset.
+		d.discardAll()
+		return nil
 	}
 
 	connectionInfo := &api.ConnectionInfo{
